@@ -34,6 +34,7 @@ def reference(out, row):
     refN = [np.zeros(len(out["bins"][c + 1][0])) for c in range(3)]
     refM = [np.zeros(len(out["bins"][c + 1][0])) for c in range(3)]
     unbinned = 0.0
+    maxcell = 0.0
     frem = dict(WD=1.0, NS=cfg["NS_ret"], BH=cfg["BH_ret_int"])
     cidx = dict(WD=0, NS=1, BH=2)
     for j in range(len(g) - 1):
@@ -45,6 +46,7 @@ def reference(out, row):
         n = FR.imf_int(cfg, A, a, b)
         if n == 0:
             continue
+        maxcell = max(maxcell, n)
         mc = 0.5 * (a + b)
         k = j if abs(g[j] - mc) < abs(g[j + 1] - mc) else j + 1
         c = cidx[ty[k]]
@@ -56,7 +58,64 @@ def reference(out, row):
             continue
         refN[c][i] += n * frem[ty[k]]
         refM[c][i] += n * f * frem[ty[k]]
-    return stars, refN, refM, mto, unbinned
+    return stars, refN, refM, mto, unbinned, maxcell
+
+
+def judge(chk, out, k, ncfg, dev_default):
+    """compare one finished run with the closed form; returns the list of (clause, input, observed) it violates"""
+    fails = []
+    cfg = {kk: v for kk, v in out["cfg"].items() if kk != "want_ifmr_grid"}
+    label = dict(cfg=cfg, tol=out["tol"])
+    if "error" in out:
+        chk.count("constructions that raised (reported under C04)")
+        return fails
+    if not out["converged"]:
+        chk.count("non-converged runs (flagged by the model itself; exempt)")
+        return fails
+    chk.note_distinct(cfg)
+    chk.count("runs" if out["tol"] is None else "runs with tightened tolerance")
+    nms = len(out["bins"][0][0])
+    for row, t in enumerate(cfg["tout"]):
+        stars, refN, refM, mto, unb, cell = reference(out, row)
+        sc = max(cfg["N0"], 1.0)
+        rtol = 2e-3 if out["tol"] is None else 2e-5
+        dS = np.abs(out["Ns"][row] - stars)
+        if np.any(dS > rtol * np.maximum(stars, 1e-3 * sc / nms) + 0.11):
+            i = int(np.argmax(dS))
+            fails.append(("stars per bin equal the IMF integrated over the part of the bin below the turn-off mass", dict(label, row=row, age=t),
+                          dict(bin=i, evolved=float(out["Ns"][row][i]), closed_form=float(stars[i]), mto=mto)))
+        if unb > 1e-6 * sc:
+            continue      # some remnant could not be binned (WD peak etc.): reported by C09 / C04
+        for c, cname in enumerate(("WD", "NS", "BH")):
+            eN, eM = out["Nr"][c][row], out["Mr"][c][row]
+            if np.any(np.isnan(eN)) or np.any(np.isnan(eM)):
+                fails.append(("remnant numbers and masses are finite", dict(label, row=row, age=t), dict(cls=cname)))
+                continue
+            totN = max(float(refN[c].sum()), 1.0)
+            # the 0.1-object residue of every turned-off star bin is missing from the remnants
+            # + resolution of the pre-image: a progenitor-grid cell at a class / bin boundary may be assigned to either side
+            slackN = rtol * totN + 0.11 * nms + 5e-4 * totN + 2.0 * cell
+            dN = np.abs(eN - refN[c])
+            if np.any(dN > slackN):
+                i = int(np.argmax(dN))
+                fails.append(("remnant number per bin equals the IMF integrated over the progenitors whose remnant falls in that bin, times the "
+                              "class retention fraction", dict(label, row=row, age=t),
+                              dict(cls=cname, bin=i, evolved=float(eN[i]), closed_form=float(refN[c][i]), class_total=[float(eN.sum()), float(refN[c].sum())])))
+            mscale = max(float(refM[c].sum()), 1.0)
+            dM = np.abs(eM - refM[c])
+            if np.any(dM > rtol * mscale + 5e-4 * mscale + (0.11 * nms + 2.0 * cell) * max(float(out["bins"][c + 1][1][-1]), 1.0)):
+                i = int(np.argmax(dM))
+                fails.append(("remnant mass per bin equals the IMF-weighted remnant mass of the progenitors whose remnant falls in that bin",
+                              dict(label, row=row, age=t), dict(cls=cname, bin=i, evolved=float(eM[i]), closed_form=float(refM[c][i]))))
+        big = stars > 100
+        dev = float(np.max(dS[big] / stars[big])) if np.any(big) else 0.0
+        if k is not None:
+            if out["tol"] is None:
+                dev_default[(k, row)] = dev
+            else:
+                d0 = dev_default.get((k - ncfg, row))
+                chk.extra.setdefault("convergence", []).append(dict(age=t, rel_dev_default=d0, rel_dev_tight=dev))
+    return fails
 
 
 def run(chk):
@@ -72,56 +131,26 @@ def run(chk):
     outs = FR.run_many(cfgs + tight)
     base, tightened = outs[:len(cfgs)], outs[len(cfgs):]
     dev_default = {}
+    pending = []          # default-tolerance deviations: judged again with the tolerance tightened (the property allows integrator accuracy)
     for k, out in enumerate(base + tightened):
-        cfg = {kk: v for kk, v in out["cfg"].items() if kk != "want_ifmr_grid"}
-        label = dict(cfg=cfg, tol=out["tol"])
-        if "error" in out:
-            chk.count("constructions that raised (reported under C04)")
-            continue
-        if not out["converged"]:
-            chk.count("non-converged runs (flagged by the model itself; exempt)")
-            continue
-        chk.note_distinct(cfg)
-        chk.count("runs" if out["tol"] is None else "runs with tightened tolerance")
-        nms = len(out["bins"][0][0])
-        for row, t in enumerate(cfg["tout"]):
-            stars, refN, refM, mto, unb = reference(out, row)
-            sc = max(cfg["N0"], 1.0)
-            rtol = 2e-3 if out["tol"] is None else 2e-5
-            dS = np.abs(out["Ns"][row] - stars)
-            if np.any(dS > rtol * np.maximum(stars, 1e-3 * sc / nms) + 0.11):
-                i = int(np.argmax(dS))
-                chk.fail("stars per bin equal the IMF integrated over the part of the bin below the turn-off mass", dict(label, row=row, age=t),
-                         dict(bin=i, evolved=float(out["Ns"][row][i]), closed_form=float(stars[i]), mto=mto))
-            if unb > 1e-6 * sc:
-                continue      # some remnant could not be binned (WD peak etc.): reported by C09 / C04
-            for c, cname in enumerate(("WD", "NS", "BH")):
-                eN, eM = out["Nr"][c][row], out["Mr"][c][row]
-                if np.any(np.isnan(eN)) or np.any(np.isnan(eM)):
-                    chk.fail("remnant numbers and masses are finite", dict(label, row=row, age=t), dict(cls=cname))
-                    continue
-                totN = max(float(refN[c].sum()), 1.0)
-                # the 0.1-object residue of every turned-off star bin is missing from the remnants
-                slackN = rtol * totN + 0.11 * nms + 5e-4 * totN     # + grid resolution of the pre-image
-                dN = np.abs(eN - refN[c])
-                if np.any(dN > slackN):
-                    i = int(np.argmax(dN))
-                    chk.fail("remnant number per bin equals the IMF integrated over the progenitors whose remnant falls in that bin, times the "
-                             "class retention fraction", dict(label, row=row, age=t),
-                             dict(cls=cname, bin=i, evolved=float(eN[i]), closed_form=float(refN[c][i]), class_total=[float(eN.sum()), float(refN[c].sum())]))
-                mscale = max(float(refM[c].sum()), 1.0)
-                dM = np.abs(eM - refM[c])
-                if np.any(dM > rtol * mscale + 5e-4 * mscale + 0.11 * nms * max(float(out["bins"][c + 1][1][-1]), 1.0)):
-                    i = int(np.argmax(dM))
-                    chk.fail("remnant mass per bin equals the IMF-weighted remnant mass of the progenitors whose remnant falls in that bin", dict(label, row=row, age=t),
-                             dict(cls=cname, bin=i, evolved=float(eM[i]), closed_form=float(refM[c][i])))
-            big = stars > 100
-            dev = float(np.max(dS[big] / stars[big])) if np.any(big) else 0.0
-            if out["tol"] is None:
-                dev_default[(k, row)] = dev
+        fails = judge(chk, out, k, len(cfgs), dev_default)
+        if fails and out["tol"] is None:
+            pending.append((out["cfg"], fails))
+        else:
+            for f in fails:
+                chk.fail(*f)
+    if pending:
+        outs2 = FR.run_many([(dict(c), 1e-9) for c, _ in pending])
+        chk.evaluations += len(outs2)
+        for (cfg0, fails0), out2 in zip(pending, outs2):
+            fails2 = judge(chk, out2, None, len(cfgs), dev_default) if ("error" not in out2 and out2["converged"]) else fails0
+            if fails2:
+                for f in fails2:
+                    chk.fail(*f)
             else:
-                d0 = dev_default.get((k - len(cfgs), row))
-                chk.extra.setdefault("convergence", []).append(dict(age=t, rel_dev_default=d0, rel_dev_tight=dev))
+                chk.count("default-tolerance deviations above 2e-3 that vanish with the tolerance tightened (integrator accuracy, allowed by the property)")
+                chk.extra.setdefault("integrator_accuracy_cases", []).append(
+                    dict(cfg={kk: v for kk, v in cfg0.items() if kk != "want_ifmr_grid"}, default_tolerance_deviation=C.jsonable(fails0[0][2])))
     chk.samples.append(dict(cfg={kk: v for kk, v in cfgs[0].items() if kk != "want_ifmr_grid"}))
     chk.evaluations += len(outs)
     chk.trusted += ["harness/props/C01.py + fullrun.py (configuration generator, closed-form reference with a %d-point progenitor grid)" % GRID,
